@@ -297,6 +297,9 @@ def c10_programs(rng, n):
                              ("mc_queue", ["a", "b", "c"], True, "q"), ("mc_drain", "q")])],
                     {1: [("send", "channel", 201), ("wait_gate", "go"), ("send", "channel", 202)], 2: [("raise",)],
                      3: [("wait_gate", "go"), ("send", "channel", 221)]}))
+    # ... with endmarker=None (an endmarker like any other), members ending normally and by an error
+    out.append(prog([("u1", [("remote_exec", "a", 1), ("remote_exec", "b", 2), ("mc_queue", ["a", "b"], "none", "q"), ("mc_drain", "q")])],
+                    {1: [("send", "channel", 201), ("send", "channel", 202)], 2: [("send", "channel", 211), ("raise",)]}))
     # a dropped callback channel racing with the end of the remote code
     out.append(prog([("u1", [("remote_exec", "c", 1), ("setcallback", "c", True), ("drop", "c"), ("remote_exec", "e", 2), ("receive_all", "e")])],
                     {1: [("send", "channel", 201)], 2: [("send", "channel", 221)]}))
